@@ -37,7 +37,10 @@ def gen_items(vseed, tier, n):
         for _ in range(2):
             tables.append({"tables": rng.choice(["LALR", "SLR"]), "ps": rng.random() < 0.4,
                            "pse": rng.random() < 0.4, "ld": rng.choice([None, True, False])})
-        if rng.random() < 0.5:
+        if len(sc["models"][v].rules) > 1 and rng.random() < 0.3:
+            # the first table is built for ANOTHER entry point of the grammar
+            tables[0] = dict(tables[0], start=rng.choice(sc["models"][v].nts()[1:]))
+        elif rng.random() < 0.5:
             # same automaton options, other scanning option, on one Grammar object
             tables[1] = dict(tables[0], ld=rng.choice(
                 [x for x in (None, True, False) if x != tables[0]["ld"]]))
@@ -225,6 +228,7 @@ def check(tier, vseed, args):
                         for tk, tv in sorted(r[which][ii].items()):
                             if isinstance(tv, dict):
                                 for fld in ("same_after_later_builds", "same_when_built_again",
+                                            "same_as_on_fresh_grammar",
                                             "loaded_same_conflicts", "same"):
                                     if tv.get(fld) is False:
                                         diffs.append({"shard": si, "item": ii, "hashseed": hs,
@@ -319,7 +323,7 @@ def _differs(item, hashseeds, base, full=False):
             for tk, tv in sorted(r[which][0].items()):
                 if isinstance(tv, dict):
                     for fld in ("same_after_later_builds", "same_when_built_again",
-                                "loaded_same_conflicts", "same"):
+                                "same_as_on_fresh_grammar", "loaded_same_conflicts", "same"):
                         if tv.get(fld) is False:
                             return (f"{tk}.{fld}", hs, which, a["first"][0], r[which][0])
             d = diff_item(a["first"][0], r[which][0])
